@@ -521,7 +521,11 @@ var PowFunc = function.New(&function.Spec{
 			return cty.UnknownVal(cty.String), err
 		}
 
-		return cty.NumberFloatVal(math.Pow(num, power)), nil
+		result := math.Pow(num, power)
+		if math.IsNaN(result) {
+			return cty.UnknownVal(cty.Number), fmt.Errorf("%s raised to the power %s is not a real number", args[0].AsBigFloat().Text('g', -1), args[1].AsBigFloat().Text('g', -1))
+		}
+		return cty.NumberFloatVal(result), nil
 	},
 })
 
